@@ -144,11 +144,13 @@ def iteration(cfg, crate, rep):
         vv = I2.run_fn(nxt[0])["value"]
         v = core(vv)
         txt = v.r()
-        gets = [(c, a) for c, a, n_, cnd, f in I2.calls if c.endswith("HashMap::get")]
+        # the lookup by key: HashMap::get on the same name's `entries`, directly or through DistinguishedName::get
+        gets = [(c, a) for c, a, n_, cnd, f in I2.calls if (c.endswith("HashMap::get") and core(a[0]).r() == "self.distinguished_name.entries")
+                or (c == "DistinguishedName::get" and core(a[0]).r() == "self.distinguished_name")]
         nexts = [(c, a) for c, a, n_, cnd, f in I2.calls if c.endswith("::next") and places(a[0]) == {"self.iter"}]
-        ok = len(gets) == 1 and core(gets[0][1][0]).r() == "self.distinguished_name.entries" and places(gets[0][1][1]) == {"self.iter"} \
+        ok = len(gets) == 1 and places(gets[0][1][1]) == {"self.iter"} \
             and any(x.endswith("::next") for x in calls_of(gets[0][1][1])) and len(nexts) == 1 \
-            and places(vv) == {"self.iter", "self.distinguished_name.entries"}
+            and places(vv) in ({"self.iter", "self.distinguished_name.entries"}, {"self.iter", "self.distinguished_name"})
         rep.ob("C20.iter", "%s|next" % cfg, ok, "next() takes the next key of `order` and looks its value up in `entries` of the same name", found=txt[:200])
     else:
         rep.fail("C20.iter", "%s|next" % cfg, "iterator impl not found")
@@ -159,15 +161,27 @@ def iteration(cfg, crate, rep):
     fors = [n for n in common.hir_walk(b["hir"]) if n["k"] == "For"]
     ok = len(fors) == 1 and (fors[0]["iter"].get("callee") == "DistinguishedName::iter")
     rep.ob("C20.iter", "%s|name-writer" % cfg, ok, "the encoded Name lists the attributes in iter() order")
-    reads = set()
+    # the unordered map may be probed / updated by key and tested for emptiness, never enumerated or handed out
+    PROBES = {"get", "get_mut", "contains_key", "insert", "remove", "is_empty", "len", "entry", "remove_entry", "get_key_value"}
+    bad_uses = []
+    n_uses = 0
     for name, bb in common.all_bodies(crate):
         if common.is_test_fn(name) or name in crate.derived_fns:
             continue
-        for n in common.hir_walk(bb["hir"]):
+        for n, ps in common.hir_walk_p(bb["hir"]):
             if n["k"] == "Field" and n.get("adt") == DN and n["name"] == "entries":
-                reads.add(name)
-    allowed = {"DistinguishedName::get", "DistinguishedName::push", "DistinguishedName::remove", nxt[0] if nxt else "?", "certificate::CertificateParams::write_subject_alt_names"}
-    rep.ob("C20.iter", "%s|entries-readers" % cfg, reads <= allowed, "the unordered map is never enumerated: it is only probed by key (and tested for emptiness by the SAN criticality rule)", expected=sorted(allowed), found=sorted(reads))
+                n_uses += 1
+                # climb through & / &mut / deref to the consuming expression
+                i_ = len(ps) - 1
+                child = n
+                while i_ >= 0 and ps[i_]["k"] in ("AddrOf", "Unary"):
+                    child = ps[i_]
+                    i_ -= 1
+                par = ps[i_] if i_ >= 0 else None
+                ok_use = par is not None and par["k"] == "MethodCall" and par.get("recv") is child and par["name"] in PROBES and "HashMap" in (par.get("callee") or "")
+                if not ok_use:
+                    bad_uses.append("%s: %s" % (name, (par or {}).get("name") or (par or {}).get("k")))
+    rep.ob("C20.iter", "%s|entries-readers" % cfg, not bad_uses and n_uses >= 4, "the unordered map is never enumerated: every use of `entries` is the receiver of a by-key probe / update or an emptiness test", expected=sorted(PROBES), found=bad_uses or "%d uses, all by-key" % n_uses)
     # no hash-map iteration anywhere on DistinguishedName.entries
     bad = []
     for name, bb in common.all_bodies(crate):
